@@ -58,7 +58,7 @@ with parse_un (fuel:nat) (ts:list tok) {struct fuel} : option (expr * list tok) 
                       match parse_un f r with Some (e, r') => Some (ENeg e, r') | None => None end
                     else None
     | TAtom a :: r => Some (pct_loop (EAtom a) r)
-    | TL :: r => match parse_items f TComma r with
+    | TL :: r => match parse_items f r with
                  | Some (es, TR :: r') => Some (pct_loop (EParen es) r')
                  | _ => None end
     | TFun g :: TR :: r => Some (pct_loop (EFun g []) r)
@@ -81,14 +81,11 @@ with loop (fuel:nat) (minp:nat) (lhs:expr) (ts:list tok) {struct fuel} : option 
         else Some (lhs, ts)
     | _ => Some (lhs, ts)
     end end
-with parse_items (fuel:nat) (sep:tok) (ts:list tok) {struct fuel} : option (list expr * list tok) :=
-  
+with parse_items (fuel:nat) (ts:list tok) {struct fuel} : option (list expr * list tok) :=
   match fuel with 0 => None | S f =>
     match parse_ex f 0 ts with
     | Some (e, TComma :: r) =>
-        match sep with TComma =>
-          match parse_items f sep r with Some (es, r') => Some (e :: es, r') | None => None end
-        | _ => Some ([e], TComma :: r) end
+        match parse_items f r with Some (es, r') => Some (e :: es, r') | None => None end
     | Some (e, r) => Some ([e], r)
     | None => None end end
 with parse_args (fuel:nat) (ts:list tok) {struct fuel} : option (list (option expr) * list tok) :=
@@ -104,7 +101,7 @@ with parse_args (fuel:nat) (ts:list tok) {struct fuel} : option (list (option ex
     end end
 with parse_rows (fuel:nat) (ts:list tok) {struct fuel} : option (list (list expr) * list tok) :=
   match fuel with 0 => None | S f =>
-    match parse_items f TComma ts with
+    match parse_items f ts with
     | Some (row, TRB :: r) => Some ([row], r)
     | Some (row, TSemi :: r) => match parse_rows f r with Some (rows, r') => Some (row :: rows, r') | None => None end
     | _ => None end end.
